@@ -286,7 +286,7 @@ func init() {
 			famConfiguredPorts(c, eachState)
 			// the accessor laws do not depend on the configuration (Inv_acc_obs_any): also under the options that
 			// let other host shapes through (lax host parsing, host functions) and change special-ness
-			for _, name := range []string{"lax", "postGsb", "preSem", "lax+postGsb", "specialX", "specialMany", "collapse+lax+skipTrailSlash"} {
+			for _, name := range []string{"lax", "postGsb", "preSem", "lax+postGsb", "specialX", "specialMany", "collapse+lax+skipTrailSlash", "allowPathNonBase", "acceptInvalid+allowPathNonBase+collapse+lax+singlePct+specialAdd"} {
 				cfg := cfgFromDesc(name)
 				famParse(c, cfg, 2500*c.Scale, allButVerrs, false, "parse:"+name, func(d *Driver, base *string, input string, io Obs, idx int) {
 					if io.Kind == "U" {
@@ -295,8 +295,35 @@ func init() {
 				})
 				famHist(c, cfg, 1500*c.Scale, 5, "ssssrcR", true, allButVerrs, "setters+resolve+clone:"+name, eachState)
 			}
+			// what the canonicalization profiles return (C19_accessors_after_canonicalization): the four predefined ones and
+			// compositions, on generated inputs and on opaque paths whose escapes decode to delimiters
+			{
+				rng := NewRng(c.Seed ^ 0xc19)
+				profs := []*Prof{predefinedProfiles[0], predefinedProfiles[1], predefinedProfiles[2], predefinedProfiles[3], profFromDesc("repeated"), profFromDesc("repeated+rmPort+sortKeys"), profFromDesc("allowPathNonBase+repeated")}
+				c.Pool.Run(8000*c.Scale, func(d *Driver, i int) {
+					r := rng.Fork(i)
+					pr := profs[i%len(profs)]
+					if pr == nil {
+						return
+					}
+					input := r.anyInput()
+					if r.Chance(1, 4) {
+						input = r.Pick([]string{"mailto:", "sc:", "data:", "javascript:"}) + r.Pick([]string{"%2Fx", "%252Fx", "%2f%2fh/p", "x%3Fq", "%23f", "a%2Fb", "%5Cx", "%2E%2E/x", "%252e", "x y"}) + r.Pick([]string{"", "?q", "#f"})
+					}
+					if o := c.cmpProf(d, pr, nil, input, allButVerrs, "profile-parse", i); o.Kind == "U" {
+						cfg := defaultCfg
+						if i%len(profs) == 3 {
+							cfg = cfgFromDesc("specialGopher") // Semantic treats gopher as special
+						}
+						if rr := coqPred(d, "ACC", cfg, o.Fields); rr != "" {
+							c.Report(Finding{Class: "violation", What: fmt.Sprintf("derived accessor clauses failing on what profile %s returns (Model/Preds.v acc_obs): %s", pr.Desc, rr),
+								Case: Case{Kind: "cparse", Cfg: pr.Desc, Input: input, Family: "profile-parse", Index: i}, Impl: strings.Join(o.Fields, " | ")})
+						}
+					}
+				})
+			}
 		},
-		rule: "parse results and every state (both slots) of generated histories of setters, resolutions and clones; the extracted Coq predicate acc_obs (8 clauses) is evaluated on the implementation's getter values",
+		rule: "parse results and every state (both slots) of generated histories of setters, resolutions and clones, and what seven canonicalization profiles return; the extracted Coq predicate acc_obs (8 clauses) is evaluated on the implementation's getter values",
 	}
 
 	props["C05"] = &propDef{
